@@ -173,6 +173,18 @@ def run(ctx):
         from .. import gen
     except ImportError:
         gen = None
+    # \verb needs a delimiter that does not occur in the code span: code spans that use up all punctuation characters but one
+    # (and, with the digits, all but one digit) walk the renderer's whole list of candidates - every choice must be a valid one
+    import string
+    k = 0
+    for pool, keep in ((string.punctuation, ''), (string.punctuation + string.digits, ''), (string.punctuation, string.digits)):
+        for c in pool:
+            k += 1
+            if k % ctx.nshards != ctx.shard:
+                continue
+            content = ''.join(x for x in pool if x != c and x not in keep)
+            fence = '``' if '`' in content and '``' not in content else '`'
+            check(ctx, 'a %s %s %s b\n' % (fence, content, fence), 'verb-delimiter-ladder')
     for k in range(sz['payload'] // ctx.nshards):
         if ctx.out_of_time():
             break
